@@ -333,6 +333,19 @@ def spec(tier, seed):
             L = ["P_%s = _sk.compile_prog(%r)" % (fn, text), "def %s(t: bool) -> bool:" % fn, '    """', "    post: _", '    """',
                  "    return body_side(P_%s, %r, %s, t)" % (fn, doc, valexpr)]
             obs.append(Ob(fn, "\n".join(L), sample="body side: %s -> __doc__=%r value=%r" % (text, doc, val), group="body"))
+    # async generators: no implicit return of the last form (a 'return value' there is a SyntaxError); compile-only checks
+    for i, text in enumerate([
+            "(defn :async ag [xs] (for [x xs] (yield x)) 5)",
+            "(defn :async ag [xs] (let [k 10] (for [x xs] (yield (* k x))) k))",
+            "(defn :async ag [xs] (when xs (let [k 1] (yield k))) xs)",
+            "(fn :async [xs] (let [k 10] (yield k) k))",
+            "(defn :async ag [] (try (yield 1) (finally 2)) 3)",
+            "(defn :async ag [] (with [(open \"/dev/null\")] (yield 1)) 3)"]):
+        fn = "h%d" % n
+        n += 1
+        L = ["P_%s = _sk.compile_prog(%r)" % (fn, text + " 0"), "def %s(t: bool) -> bool:" % fn, '    """', "    post: _", '    """',
+             "    return P_%s[0] == 'ok'" % fn]
+        obs.append(Ob(fn, "\n".join(L), sample="async generator must compile (no implicit return): " + text, group="body-async"))
     tw = "\n".join(["P_twin0 = _sk.compile_prog('(fn [a [b dflt0]] #(a b))')", "X_twin0 = compile('lambda a, b=dflt0: (a, b)', '<py>', 'eval')",
                     "def twin0(dflt0: int, pos: List[int], kw: Dict[str, int]) -> bool:", '    """', "    pre: len(pos) <= 2 and len(kw) <= 1 and all(k in ('a', 'b') for k in kw)",
                     "    post: _", '    """', "    def_side(P_twin0, X_twin0, [dflt0], pos, kw)", "    return False"])
